@@ -530,7 +530,9 @@ Fixpoint getters (s : stmt) : list (N * N * stmts) :=
   | SIfElse _ _ a b => getters a ++ getters b
   | SWhile _ _ b | SDoWhile _ b _ | SFor _ _ b | SForIn _ b | SForOf _ b | SLabel _ _ b => getters b
   | SSwitch _ cs => getters_c cs
-  | STry _ _ blk _ hb _ fb => getters_l blk ++ getters_l hb ++ getters_l fb
+  | STry _ _ blk h hb f fb =>
+      getters_l blk ++ (match h with Some _ => getters_l hb | None => [] end)
+                    ++ (match f with Some _ => getters_l fb | None => [] end)
   | _ => []
   end
 with getters_l (l : stmts) : list (N * N * stmts) :=
